@@ -1037,4 +1037,53 @@ theorem reproduce_finalize_allZ (o : EpochOpts W) (gen : Int) (p1 p2 : Pop W) (e
             exact ⟨s0, hs0, x, hx0, rfl⟩
           · exact hb0 x h'
 
+/-! ### 5. the first organism after the fitness adjustment, and why it is not removed -/
+
+/-- the head of the adjusted species is a member of the old one: same allocation id and genome, its raw fitness recorded
+    as original fitness; with at least one parent kept it is not marked for elimination unless it already was -/
+theorem adjustFitness_head (o : EpochOpts W) (s s' : Species W) (top : Org W) (rest : List (Org W))
+    (h : adjustFitness o s = .ok s') (hs' : s'.orgs = top :: rest) :
+    ∃ y ∈ s.orgs, top.uid = y.uid ∧ top.genome = y.genome ∧ top.originalFitness = y.fitness ∧
+      (1 ≤ C09.numParents o s.orgs.length → top.toEliminate = y.toEliminate) := by
+  unfold adjustFitness at h
+  simp only at h
+  split at h
+  · cases h
+  · rename_i t r hsort
+    cases h
+    rw [hsort] at hs'
+    simp only [markOrgs, List.cons.injEq] at hs'
+    obtain ⟨rfl, _⟩ := hs'
+    have htmem : t ∈ sortOrgsDesc (s.orgs.map (adjustOrg (if (s.age - s.ageOfLastImprovement + 1) - o.dropOffAge = 0 then 1 else (s.age - s.ageOfLastImprovement + 1) - o.dropOffAge) s.age o s.orgs.length)) := by
+      rw [hsort]; simp
+    have := (goSort_perm _ _).mem_iff.mp htmem
+    obtain ⟨y, hy, rfl⟩ := List.mem_map.mp this
+    refine ⟨y, hy, rfl, rfl, rfl, ?_⟩
+    intro h1
+    unfold C09.numParents at h1
+    have hn : ¬ (((0 : Nat) : Int) ≥ floorInt (add (mul o.survivalThresh (ofInt (s.orgs.length : Int))) one)) := by
+      omega
+    simp only [hn, ↓reduceIte]
+    rfl
+
+/-- an organism that is not marked is not among the doomed, when allocation ids are pairwise distinct -/
+theorem not_doomed (pre : Pop W) (hnd : (C02.orgUids pre.species).Nodup) (m : Species W) (hm : m ∈ pre.species)
+    (x : Org W) (hx : x ∈ m.orgs) (hte : x.toEliminate = false) :
+    ((pre.orgList.filter (·.toEliminate)).map (·.uid)).contains x.uid = false := by
+  have hfind : pre.findOrg x.uid = some x := C09.findOrg_of_mem pre hnd m hm x hx
+  simp only [List.contains_eq_mem, List.mem_map, List.mem_filter, decide_eq_false_iff_not]
+  rintro ⟨y, ⟨hyl, hyte⟩, hyu⟩
+  unfold Pop.orgList at hyl
+  obtain ⟨u, _, hfy⟩ := List.mem_filterMap.mp hyl
+  obtain ⟨sy, hsy, hyin, _⟩ := C09.findOrg_some_mem pre u y hfy
+  have hfy' : pre.findOrg y.uid = some y := C09.findOrg_of_mem pre hnd sy hsy y hyin
+  rw [hyu, hfind] at hfy'
+  cases hfy'
+  rw [hte] at hyte; cases hyte
+
+omit [Scalar W] in
+theorem uids_of_gkeys (k : Org W → κ) (u : κ → Nat) (hu : ∀ x, u (k x) = x.uid) (a : List (Species W)) :
+    C02.orgUids a = (a.map (gkey k)).flatMap (fun g => g.2.map u) := by
+  simp only [gkey, C02.orgUids, List.flatMap_map, List.map_map, Function.comp_def, hu]
+
 end GoNeat.C10
